@@ -39,13 +39,15 @@ def gen_spec(prop, rng, tier):
         wl = gen.gen_workload(rng, profile='multilong')
     elif rng.random() < (0.03 if prop == 'C10' else 0.012):
         wl = gen.gen_workload(rng, profile='many')
+    elif rng.random() < 0.06:
+        wl = gen.gen_workload(rng, profile='boundary')
     if prop == 'C01' and rng.random() < 0.15 and len(wl['seqs']) >= 3:
         # zero-length input sequences: "one row per NON-EMPTY input sequence, in input order"
         for _ in range(rng.randint(1, 3)):
             k = rng.randrange(len(wl['seqs']) + 1)
             wl['seqs'].insert(k, ''); wl['names'].insert(k, 'empty%d_%d' % (k, rng.randrange(1000)))
         wl['names'] = ['%s.%d' % (n.split('.')[0][:18], i) for i, n in enumerate(wl['names'])]
-    big = wl['profile'] in ('kmeans', 'hirsch', 'medium', 'large', 'multilong', 'many')
+    big = wl['profile'] in ('kmeans', 'hirsch', 'medium', 'large', 'multilong', 'many') or (wl['profile'] == 'boundary' and len(wl['seqs']) * max(len(x) for x in wl['seqs']) > 20000)
     if wl['profile'] == 'large':
         nruns = min(nruns, 2)
     if prop == 'C01':
